@@ -522,13 +522,43 @@ def PatPiece.requiresExpansion (ext : Bool) : PatPiece → Bool
   | .pat s => hasGlob ext s
   | .lit _ => false
 
+/-- `subpattern_starts_with_dot`: the first piece that contributes any text decides (a component
+that follows a quoted `"dir/"` starts with an empty piece) -/
+def componentStartsWithDot (ps : List PatPiece) : Bool :=
+  match ps.find? (fun p => !p.raw.isEmpty) with
+  | some p => startsWithDot p.raw
+  | none => false
+
 /-- `Pattern::expand` for a one-component pattern in one directory: `none` = the early exit "the
 pattern does not require expansion" (the word is kept as it is), decided on the joined,
-quote-escaped text; the dot-file rule looks at the raw text of the first piece -/
+quote-escaped text; the dot-file rule looks at the first non-empty piece -/
 def expandPieces (ext nc dotglob : Bool) (ps : List PatPiece) (names : List Str) : Option (List Str) :=
   if !hasGlob ext (piecesText ps) then none
   else
-    let allowDot := dotglob || (match ps with | p :: _ => startsWithDot p.raw | [] => false)
+    let allowDot := dotglob || componentStartsWithDot ps
     some (sortStrs (names.filter fun n => piecesMatch ext nc ps n && (!startsWithDot n || allowDot)))
+
+/-! ## the compiled-regex cache (`compile_regex`, regex.rs)
+
+`REGEX_CACHE` is an LRU map from everything the compiled regex depends on — the regex text and the
+two flags — to the compiled regex. Whatever was matched before, in whatever function, subshell or
+option state, a lookup must answer what a fresh compilation would. -/
+
+structure CKey where
+  text : Str
+  nc : Bool          -- case-insensitive
+  ml : Bool          -- "multiline" (`(?s)` prefix)
+deriving DecidableEq, Repr
+
+/-- one use of the cache: hit (move the entry to the front) or compile, insert, evict beyond `cap` -/
+def cacheGet {β : Type} (compile : CKey → β) (cap : Nat) (c : List (CKey × β)) (k : CKey) : β × List (CKey × β) :=
+  match c.find? (fun e => e.1 = k) with
+  | some e => (e.2, e :: c.filter (fun x => x.1 ≠ k))
+  | none => let v := compile k; (v, ((k, v) :: c).take cap)
+
+/-- the answers of a sequence of uses, starting from cache `c` -/
+def runCache {β : Type} (compile : CKey → β) (cap : Nat) : List (CKey × β) → List CKey → List β
+  | _, [] => []
+  | c, k :: ks => let (v, c') := cacheGet compile cap c k; v :: runCache compile cap c' ks
 
 end BrushVerif.Pattern
